@@ -749,6 +749,9 @@ func main() {
 	}
 	defer drv.Close()
 	var mu sync.Mutex
+	if o.Replay == "" {
+		runSidecar(o, res, drv, nil)
+	}
 
 	reported := map[string]bool{}
 	report := func(c Case, fails []failure, doShrink bool) {
@@ -774,6 +777,20 @@ func main() {
 	}
 
 	if o.Replay != "" {
+		if b, err := os.ReadFile(o.Replay); err == nil {
+			var sr struct {
+				Replay struct {
+					Sidecar *SidecarCase `json:"sidecar"`
+				} `json:"replay"`
+			}
+			if json.Unmarshal(b, &sr) == nil && sr.Replay.Sidecar != nil {
+				if runSidecar(o, res, drv, sr.Replay.Sidecar) {
+					os.Exit(1)
+				}
+				fmt.Println("replay passes")
+				return
+			}
+		}
 		c, err := loadCase(o.Replay)
 		if err != nil {
 			hx.Fatal(err)
